@@ -486,7 +486,6 @@ func (r *c12FsmRun) checkServer(sv *c12Srv, step int, mode string) map[string]*c
 		}
 		// what the coordinator serves
 		if v.Coordinator == sv.id {
-			g := sv.s.metadata.GetConsumerGroup(gid)
 			for id, m := range v.Members {
 				got, ep, err := sv.s.metadata.GetConsumerGroupAssignments(gid, id, v.Epoch)
 				if err != nil {
@@ -505,7 +504,6 @@ func (r *c12FsmRun) checkServer(sv *c12Srv, step int, mode string) map[string]*c
 				}
 				r.served++
 			}
-			_ = g
 		}
 	}
 	return vs
